@@ -28,6 +28,7 @@ func runC15(p *eng.Prog, r *eng.Report, tier string) {
 	// writer and Close, or between the serve loop and a requester, ends every guarantee of this property
 	lockOrder(c, "C15.26")
 	c15CarrierTypes(c, "C15.24")
+	c15HandlerEncoderStays(c, "C15.28")
 	c.r.Floor("C15.27", "decode targets with namespace-blind attribute tags in ibb", attrTagsDecodeOwnAttributes(c, "C15.27", "ibb"), 2)
 	c.r.Floor("C15.25", "blocking channel operations in ibb", lockHeldAcrossChannelOp(c, "C15.25", "ibb."), 3)
 	c15Open(c)
@@ -1283,4 +1284,39 @@ func c15CarrierTypes(c *cx, id string) {
 	}
 	sort.Strings(bad)
 	c.r.Check(id, f, "stanza types ibb.Handle registers for", "T: no message of type error and only IQs of type set carry packets", f.Pos(), len(bad) == 0, strings.Join(bad, "; "))
+}
+
+// c15HandlerEncoderStays (C15.28 / C06.33): when the peer closes a stream, the
+// handler flushes what is still buffered through its own encoder (the serve
+// loop holds the session's output lock and cannot wait for replies):
+// Conn.flush(t) stores t into stanzaWriter.t, and closeNoNotify then closes the
+// base64 encoder, whose last partial group is written through the same
+// stanzaWriter. The encoder stays in place for that: the only store into
+// stanzaWriter.t is the parameter of flush, behind the test that it is not
+// nil; nothing resets it (a deferred `t = nil` makes the final block go out as
+// an IQ that waits for its answer inside the serve loop).
+func c15HandlerEncoderStays(c *cx, id string) {
+	n := 0
+	for _, f := range c.allFns() {
+		if !strings.HasPrefix(f.Short, "ibb.") {
+			continue
+		}
+		var all []*eng.Fn
+		all = append(all, f)
+		for _, w := range f.FieldWrites("ibb.stanzaWriter.t") {
+			n++
+			okw := f.Short == "ibb.(*Conn).flush" && w.RHS != nil && f.Norm(w.RHS, nil) == "p0"
+			c.r.Check(id, f, "store into stanzaWriter.t", "W: the stream's writer is given the handler's encoder by Conn.flush(t) and keeps it", w.Stmt.Pos(), okw, "stored "+func() string {
+				if w.RHS == nil {
+					return "(tuple)"
+				}
+				return f.Norm(w.RHS, nil)
+			}()+" in "+f.Short+": the last block of a stream the peer closed is sent as an IQ from inside the serve loop, which then waits for the answer it should be reading")
+			if okw {
+				c.domAny(id, f, w.Stmt, "store into stanzaWriter.t [an encoder was given]", []string{"!eq(p0,nil)"})
+			}
+		}
+		_ = all
+	}
+	c.r.Floor(id, "stores into stanzaWriter.t", n, 1)
 }
